@@ -1,0 +1,194 @@
+//go:build verif
+
+// C32: contracts for snapshot import and restore (govc, /verif). Only compiled with -tags verif.
+
+package backend
+
+// ---- import: the transaction marker ------------------------------------------------------------------
+
+// the names of the marker and of the files a cancel removes (package variables, pinned textually)
+//@ const [C32] importingFnFmt: "%d_importing"
+//@ const [C32] importingForIDFmt: "%d_*.zip"
+
+//@ func newImportTransaction
+//@   props C32
+//@   guard call filepath.Join: [lock-inside-snapshots-dir] len(arg0) == 2 && arg0[0] == dirs.SnapshotsDir
+//@   ensures [fresh-uncommitted] result != nil && result.id == setID && !result.committed
+
+//@ func (*importTransaction).lock
+//@   props C32
+//@   guard call os.WriteFile: [marker-only] arg0 == t.lockPath && len(arg1) == 0
+
+//@ func (*importTransaction).unlock
+//@   props C32
+//@   guard call os.Remove: [marker-only] arg0 == t.lockPath
+
+//@ func (*importTransaction).Start
+//@   props C32
+//@   guard call (*importTransaction).lock: arg0 == t
+
+//@ func (*importTransaction).Commit
+//@   props C32
+//@   guard call (*importTransaction).unlock: arg0 == t
+//@   ensures [committed-iff-unlocked] (result == nil ==> t.committed) && (result != nil ==> t.committed == old(t.committed))
+
+// loop 0: the files of this set id found by the glob
+//@ func (*importTransaction).Cancel
+//@   props C32
+//@   guard call filepath.Join: [glob-inside-snapshots-dir] len(arg0) == 2 && arg0[0] == dirs.SnapshotsDir
+//@   guard call os.Remove: [only-glob-results-of-uncommitted] !old(t.committed) && 0 <= idx0 && idx0 < len(inProgressImports) && arg0 == inProgressImports[idx0]
+//@   guard call (*importTransaction).unlock: [not-after-commit] !old(t.committed) && arg0 == t
+//@   ensures [commit-is-final] old(t.committed) ==> result == ErrCannotCancel && !called("filepath.Glob") && !called("(*importTransaction).unlock")
+//@   loop 0: invariant -1 <= idx0 && idx0 < len(inProgressImports)
+
+// ---- import: unpacking --------------------------------------------------------------------------------
+
+//@ callers [C32] writeOneSnapshotFile: unpackVerifySnapshotImport
+//@ callers [C32] unpackVerifySnapshotImport: Import
+
+//@ func writeOneSnapshotFile
+//@   props C32
+//@   guard call os.OpenFile: [only-the-target] arg0 == targetPath
+//@   guard call io.Copy: [from-the-stream] arg0v == t && arg1 == tr
+
+// backendOpen is Open except in tests: calls through it are calls of Open (its proved contract is used)
+//@ const [C32] backendOpen: Open
+
+//@ func Open
+//@   props C32
+//@   ensures [reader-on-success] e == nil ==> reader != nil
+
+//@ func unpackVerifySnapshotImport
+//@   props C32
+//@   nopanic
+//@   guard call writeOneSnapshotFile: [not-a-directory] header != nil && header.Typeflag != tar.TypeDir
+//@   guard call writeOneSnapshotFile: [no-parent-element] !strings.Contains(header.Name, "../")
+//@   guard call writeOneSnapshotFile: [not-a-control-member] header.Name != "content.json" && header.Name != "export.json"
+//@   guard call writeOneSnapshotFile: [joined-target-this-member] arg0 == targetPath && called("path.Join") && arg1v == tr
+//@   guard call path.Join: [inside-snapshots-dir-own-set-id] len(arg0) == 2 && arg0[0] == dirs.SnapshotsDir && len(l) == 2 && arg0[1] == strconv.Itoa(realSetID) + "_" + l[1]
+//@   guard call (*Reader).Check: [all-users] len(arg2) == 0
+//@   ensures [export-required] err == nil ==> final(exportFound)
+//@   ensures [whole-stream-read] err == nil ==> final(tarErr) == io.EOF
+//@   loop 0: invariant [reading-continues-only-without-error] tarErr == nil
+//@   loop 0: step [no-failure-survives-a-member] tarErr == nil && err == nil
+//@   loop 0: step [names-only-after-the-check] len(snapNames) == old(len(snapNames)) || (len(snapNames) == old(len(snapNames)) + 1 && called("(*Reader).Check"))
+//@   loop 0: step [export-seen-stays-seen] old(exportFound) ==> exportFound
+
+//@ func Import
+//@   props C32
+//@   guard call os.MkdirAll: [snapshots-dir-only] arg0 == dirs.SnapshotsDir
+//@   guard call unpackVerifySnapshotImport: [marked-first-same-id-and-stream] called("(*importTransaction).Start") && arg1 == r && arg2 == id
+//@   guard call (*importTransaction).Commit: [only-after-successful-unpack] err == nil && arg0 == tr
+//@   ensures [failure-names-nothing] err != nil ==> snapNames == nil
+//@   ensures [success-means-committed] err == nil ==> called("(*importTransaction).Commit") && called("unpackVerifySnapshotImport")
+
+// ---- integrity check --------------------------------------------------------------------------------
+
+// I/O leaf: opens the named member of the zip file; writes no program state
+//@ func zipMember
+//@   trusted
+//@   assigns nothing
+//@   ensures err == nil ==> r != nil
+
+//@ func (*Reader).checkOne
+//@   props C32
+//@   guard call io.MultiWriter: [expected-digest-from-metadata] expectedHash == r.SHA3_384[entry]
+//@   ensures [size-and-digest-match] result == nil ==> final(readSize) == final(reportedSize) && final(actualHash) == final(expectedHash)
+
+// loop 0: the entries of the snapshot's digest table
+//@ func (*Reader).Check
+//@   props C32
+//@   guard call (*Reader).checkOne: [each-listed-entry] arg0 == r && arg2 == entry && arg3 == hasher
+//@   guard call logger.Debugf: [skipped-only-by-request] len(usernames) > 0 && isUserArchive(entry)
+//@   guard call (hash.Hash).Reset: [only-after-a-match] err == nil
+
+// ---- restore: moving into place and taking it back --------------------------------------------------
+
+//@ callers [C32] moveFile: (*Reader).Restore
+
+//@ func restoreStateFilename
+//@   props C32
+//@   ensures [aside-name-shape] len(result) == len(fn) + 12 && strings.HasPrefix(result, fn + ".~") && strings.HasSuffix(result, "~")
+
+//@ func restoreState2orig
+//@   props C32
+//@   ensures [orig-is-a-prefix-of-the-aside-name] result == "" || strings.HasPrefix(fn, result)
+
+//@ func moveFile
+//@   props C32
+//@   nopanic
+//@   requires rs != nil
+//@   guard call os.Rename: [aside-first] !called("os.Rename") && exists ==> arg0 == dst && called("restoreStateFilename") && strings.HasPrefix(arg1, dst + ".~") && len(rs.Moved) == old(len(rs.Moved)) && len(rs.Created) == old(len(rs.Created))
+//@   guard call os.Rename: [into-place-only-when-free-or-aside-recorded] called("os.Rename") || !exists ==> arg0 == src && arg1 == dst && (exists ==> len(rs.Moved) == old(len(rs.Moved)) + 1 && strings.HasPrefix(rs.Moved[len(rs.Moved) - 1], dst + ".~"))
+//@   guard call os.Rename: [at-most-two] !calledAfter("os.Rename", "os.Rename")
+//@   guard call filepath.Join: [source-then-target-same-name] len(arg0) == 2 && arg0[1] == file && ((!called("filepath.Join") && arg0[0] == sourceDir) || (called("filepath.Join") && arg0[0] == targetDir))
+//@   ensures [failure-records-no-creation] result != nil ==> len(rs.Created) == old(len(rs.Created))
+//@   ensures [created-grows-by-target] len(rs.Created) == old(len(rs.Created)) || (len(rs.Created) == old(len(rs.Created)) + 1 && rs.Created[len(rs.Created) - 1] == final(dst) && result == nil)
+//@   ensures [moved-grows-by-aside-name] len(rs.Moved) == old(len(rs.Moved)) || (len(rs.Moved) == old(len(rs.Moved)) + 1 && called("os.Rename") && called("restoreStateFilename"))
+//@   ensures [nothing-to-move-nothing-done] !called("os.Rename") ==> len(rs.Created) == old(len(rs.Created)) && len(rs.Moved) == old(len(rs.Moved))
+
+// loops: 0 what the restore created, 1 what it moved aside
+//@ func (*RestoreState).Revert
+//@   props C32
+//@   assigns RestoreState.Done
+//@   guard call os.RemoveAll: [only-created-once] !old(rs.Done) && 0 <= idx0 && idx0 < len(rs.Created) && arg0 == rs.Created[idx0] && !called("os.Rename")
+//@   guard call os.Rename: [moved-back-after-all-removals] !old(rs.Done) && idx0 + 1 >= len(rs.Created) && 0 <= idx1 && idx1 < len(rs.Moved) && arg0 == rs.Moved[idx1] && arg1 == orig && orig != ""
+//@   ensures [done] rs.Done
+//@   ensures [second-revert-does-nothing] old(rs.Done) ==> !called("os.RemoveAll") && !called("os.Rename")
+//@   loop 0: invariant -1 <= idx0 && idx0 < len(rs.Created) && !old(rs.Done) && !called("os.Rename")
+//@   loop 1: invariant -1 <= idx1 && idx1 < len(rs.Moved) && !old(rs.Done) && idx0 + 1 >= len(rs.Created)
+
+// loop 0: what was moved aside
+//@ func (*RestoreState).Cleanup
+//@   props C32
+//@   assigns RestoreState.Done
+//@   guard call os.RemoveAll: [only-moved-aside-once] !old(rs.Done) && 0 <= idx0 && idx0 < len(rs.Moved) && arg0 == rs.Moved[idx0]
+//@   ensures [done] rs.Done
+//@   loop 0: invariant -1 <= idx0 && idx0 < len(rs.Moved) && !old(rs.Done)
+
+// the deferred failure handler of Restore
+//@ func (*Reader).Restore$1
+//@   props C32
+//@   guard call (*RestoreState).Revert: [only-on-failure] e != nil && arg0 == rs
+//@   ensures [failure-reverts-and-returns-no-state] old(e) != nil ==> called("(*RestoreState).Revert") && rs == nil
+//@   ensures [success-keeps-state] old(e) == nil ==> rs == old(rs) && !called("(*RestoreState).Revert")
+
+// ---- restore: the entries of the snapshot --------------------------------------------------------------
+
+// the logging callback handed in by the caller writes no state of this package (T5)
+//@ func (overlord/snapshotstate/backend.Logf)
+//@   trusted
+//@   assigns nothing
+
+// user.Lookup except in tests: a lookup, writes no program state
+//@ func var:userLookup
+//@   trusted
+//@   assigns nothing
+
+// builds the exec.Cmd that runs tar (possibly through sudo/runuser); writes no program state
+//@ func var:tarAsUser
+//@   trusted
+//@   assigns nothing
+//@   ensures result != nil
+
+// loops: 0 the entries of the digest table, 1 the two directories ("common", revision) of one entry
+//@ func (*Reader).Restore
+//@   props C32
+//@   guard append RestoreState.Created: [only-a-parent-that-was-just-created] !exists && called("osutil.MkdirAllChown")
+//@   guard call os.MkdirTemp: [temp-inside-existing-parent-directory] arg0 == parent && (exists ==> isDir)
+//@   guard call zipMember: [this-entry-of-this-snapshot] arg0 == r.File && arg1 == entry
+//@   guard call io.MultiWriter: [expected-digest-from-table] !called("io.TeeReader") ==> expectedHash == r.SHA3_384[entry]
+//@   guard call osutil.RunWithContext: [extract-what-was-opened] called("zipMember") && arg0 == ctx && arg1 == cmd
+//@   guard call (hash.Hash).Sum: [digest-taken-only-after-extraction-and-size-match] called("osutil.RunWithContext") && sz.Size() == expectedSize
+//@   guard call filepath.Join: [rename-inside-temp-dir] len(arg0) == 2 && arg0[0] == tempdir
+//@   guard call os.Rename: [revision-renamed-only-after-verification] called("(hash.Hash).Sum") && sz.Size() == expectedSize && actualHash == expectedHash
+//@   guard call moveFile: [only-verified-data-is-moved] called("osutil.RunWithContext") && called("(hash.Hash).Sum") && sz.Size() == expectedSize && actualHash == expectedHash && expectedHash == r.SHA3_384[entry]
+//@   guard call moveFile: [from-temp-into-parent] arg0 == rs && rs != nil && arg1 == dir && arg2 == tempdir && arg3 == parent
+//@   guard call moveFile: [common-then-revision] 0 <= idx1 && idx1 <= 1 && dir == ranged1[idx1]
+//@   guard call (hash.Hash).Reset: [next-entry-only-after-both-moves] idx1 >= 1 && called("moveFile")
+//@   ensures [nothing-moved-without-a-digest-taken] called("moveFile") ==> called("(hash.Hash).Sum") && called("osutil.RunWithContext")
+//@   loop 0: invariant [entries-complete-before-the-next] called("moveFile") ==> called("(hash.Hash).Reset")
+//@   loop 0: invariant [state-kept] rs != nil && !rs.Done
+//@   loop 0: invariant [moves-follow-digests] called("moveFile") ==> called("(hash.Hash).Sum") && called("osutil.RunWithContext")
+//@   loop 1: invariant -1 <= idx1 && idx1 <= 1 && len(ranged1) == 2 && (idx1 >= 0 ==> called("moveFile")) && rs != nil && called("(hash.Hash).Sum") && called("osutil.RunWithContext")
+//@   loop 1: step [a-failed-move-ends-the-restore] err == nil
